@@ -7,10 +7,12 @@ import (
 	"os"
 
 	"verifharness/drv/c03"
+	"verifharness/drv/c20"
 )
 
 var cmds = map[string]func([]string) error{
 	"c03": c03.Main,
+	"c20": c20.Main,
 }
 
 func main() {
